@@ -2,6 +2,7 @@ package main
 
 import (
 	"go/token"
+	"sort"
 	"strings"
 
 	"golang.org/x/tools/go/ssa"
@@ -273,5 +274,48 @@ func runC20(w *World, r *Report) {
 	r.Min("R3", 6)
 	r.Min("R4", 1)
 	r.Min("R5", 7)
-	r.Min("R6", 7)
+	c20DistinctSettings(w, r)
+	r.Min("R6", 15)
+}
+
+// c20DistinctSettings: the four watcher settings come from four different
+// environment variables (the "wrong variable of the same type" contradiction:
+// two getters of different settings reading the same variable means one of
+// them is wrong), and each getter converts the value it read.
+func c20DistinctSettings(w *World, r *Report) {
+	const pkgEnv = "lunar/engine/utils/environment"
+	getters := []string{"GetDiagnosisFailsafeMinTimeBetweenCalls", "GetDiagnosisFailsafeConsecutiveN", "GetDiagnosisFailsafeMinStablePeriod", "GetDiagnosisFailsafeCooldownPeriod"}
+	readBy := map[string][]string{}
+	for _, g := range getters {
+		f := w.Fn(pkgEnv, g)
+		if f == nil {
+			r.Undec("R6", "env/"+g, token.NoPos, "getter not found")
+			continue
+		}
+		var vars []string
+		for _, c := range CallsIn(f, true, "os.Getenv", "os.LookupEnv") {
+			if s, ok := constString(c.Common().Args[0]); ok {
+				vars = append(vars, s)
+			} else {
+				vars = append(vars, "<non-constant>")
+			}
+		}
+		okRet := true
+		for _, alt := range ReturnAlts(f, 0) {
+			if k, isK := peel(alt.Val).(*ssa.Const); isK && (k.Value == nil || k.Value.ExactString() == "0") {
+				continue // zero value next to an error
+			}
+			if !Derives(alt.Val, func(x ssa.Value) bool { return isCallTo0(x, "os.Getenv", "os.LookupEnv") }) {
+				okRet = false
+			}
+		}
+		r.Check(len(vars) == 1 && vars[0] != "<non-constant>" && okRet, "R6", "env/"+g+"/reads-one-variable", f.Pos(), "%s returns a value derived from exactly one environment variable %v", g, vars)
+		for _, v := range vars {
+			readBy[v] = append(readBy[v], g)
+		}
+	}
+	for v, gs := range readBy {
+		sort.Strings(gs)
+		r.Check(len(gs) == 1, "R6", "env/distinct/"+v, token.NoPos, "environment variable %s is read by %v (each watcher setting must have its own variable)", v, gs)
+	}
 }
